@@ -73,17 +73,18 @@ def queries(tier):
                            desc='JSON::parse(%s) on the templated document %s (concrete skeleton + trailing holes of one lexical class each): expected acceptance / kind / value / exception type' % ('strict' if st else 'default', TNAMES[t]),
                            bounds='template %s, mode %s, every value of the holes' % (TNAMES[t], 'strict' if st else 'default')))
     # cells added for the exponent '+' sign and for the strict flag below a dictionary value. Dictionaries WITH a member are costly
-    # (shim emplace + two levels of ~JSON): recursion bound 2, up to 24 GB; the member value is read back only in the thorough tier.
-    XN = {30: '1e++D', 31: '-2.5E++D', 32: '7e+2+WS (both entry points)', 33: '{"a":7}', 34: '{"a":t}', 35: '{"a":0x1C}', 36: '{"a":[1,]}', 37: '{"a":7,}'}
+    # (shim emplace + two levels of ~JSON): recursion bound 2, 12 GB cap, no symbolic hole; the member value is read back only in the thorough
+    # tier. {"a":[1,]} (three levels) was dropped: on the seeded mutant it gives no verdict in 900 s, so it could not be shown to fail.
+    XN = {30: '1e++D', 31: '-2.5E++D', 32: '7e+2+WS (both entry points)', 33: '{"a":7}', 34: '{"a":t}', 35: '{"a":0x1C}', 37: '{"a":7,}'}
     if tier == 'quick':
-        xs = [(30, 0, 0, 0, 0), (34, 1, 1, 0, 1), (33, 0, 1, 0, 1)]
+        xs = [(30, 0, 0, 0, 0), (34, 0, 1, 0, 1), (33, 0, 1, 0, 1)]
     else:
         xs = [(t, 0, st, 0, 0) for t in (30, 31, 32) for st in (0, 1)]
         xs += [(33, 0, 0, 1, 1), (33, 0, 1, 1, 1)]
-        xs += [(t, 1, 1, 0, 1) for t in (34, 35, 37)] + [(t, 0, 0, 1, 1) for t in (34, 35, 37)] + [(36, 1, 1, 0, 2)]
+        xs += [(t, 0, 1, 0, 1) for t in (34, 35, 37)] + [(t, 0, 0, 1, 1) for t in (34, 35, 37)]
     for t, hole, st, elem, nb in xs:
         qs.append(dict(name='tmpl%02d_strict%d' % (t, st), unit='json', harness='h_tmpl.c', defs={'TPL': t, 'STRICT': st, 'HOLE': hole, 'ELEM': elem}, unwind=12,
-                       unwindset=parse_unwindset(12, nb, elems=2), object_bits=12, timeout=900, mem_gb=(24 if t >= 33 else 6),
+                       unwindset=parse_unwindset(12, nb, elems=2), object_bits=12, timeout=900, mem_gb=(12 if t >= 33 else 6),
                        desc='JSON::parse(%s) on the templated document %s%s: expected acceptance / kind / value%s' % ('strict' if st else 'default', XN[t], ' + trailing WS hole' if hole else '', ' of member a' if elem else ''),
                        bounds='template %s%s, mode %s' % (XN[t], '+WS' if hole else '', 'strict' if st else 'default')))
     if os.environ.get('C05_PROBES'):
